@@ -220,6 +220,14 @@ func (e *c20Env) run(c *c20Case, out *bufio.Writer, stats map[string]int) {
 			verdict = "FAIL " + s
 		}
 	}
+	// weak: the document IS rejected, but not for the key. The property (unknown key ⇒ error) holds
+	// on this document; it is reported only when no stronger failure is found, because an error
+	// raised inside Decode (e.g. by a custom unmarshaller) can mask yaml.v3's key errors.
+	weak := func(s string) {
+		if verdict == "ok" {
+			verdict = "FAIL-WEAK " + s
+		}
+	}
 	switch c.What {
 	case "base-nulls":
 		if class == "key" {
@@ -239,7 +247,7 @@ func (e *c20Env) run(c *c20Case, out *bufio.Writer, stats map[string]int) {
 		if errText == "" {
 			fail("unknown key accepted by the loader")
 		} else if class != "key" {
-			fail("unknown key not reported as such by the loader (" + class + ")")
+			weak("document with an unknown key is rejected, but not as an unknown key (" + class + "): " + errText)
 		}
 		if addl == 0 {
 			fail("unknown key accepted by the published schema")
@@ -274,7 +282,9 @@ func (e *c20Env) run(c *c20Case, out *bufio.Writer, stats map[string]int) {
 		}
 	}
 	if L != P {
-		if L {
+		if L && (class == "semantic" || class == "panic") {
+			weak("keys-disagree: published schema reports an additional property, loader fails for another reason (" + class + ") without naming a key")
+		} else if L {
 			fail("keys-disagree: loader accepts the keys, published schema reports an additional property")
 		} else {
 			fail("keys-disagree: published schema accepts the keys, loader reports an unknown field")
@@ -303,7 +313,6 @@ func c20Insert(m *c20Node, pos int, key string, val *c20Node) {
 // variants derives from one valid document: the unknown key injected at every mapping node in
 // turn (exhaustive per document) + a key declared elsewhere, + the Go field name spelling.
 func (e *c20Env) variants(kind, what string, root *c20Node, r *rng, out *bufio.Writer, stats map[string]int) int {
-	f := e.file(kind)
 	n := 0
 	e.run(c20MkCase(kind, what, "", "", root), out, stats)
 	n++
@@ -333,8 +342,8 @@ func (e *c20Env) variants(kind, what string, root *c20Node, r *rng, out *bufio.W
 		}
 		// a key of the configuration language, but not of this struct
 		declared := map[string]bool{}
-		for _, fl := range f.LEnv[m.node.def].Fields {
-			declared[fl.Key] = true
+		for _, k := range m.node.decl {
+			declared[k] = true
 		}
 		if r.chance(35) {
 			for try := 0; try < 20; try++ {
@@ -352,10 +361,10 @@ func (e *c20Env) variants(kind, what string, root *c20Node, r *rng, out *bufio.W
 			}
 		}
 		// keys are case-sensitive: the upper-cased spelling of a declared key is unknown
-		if r.chance(20) && len(f.LEnv[m.node.def].Fields) > 0 {
-			fl := f.LEnv[m.node.def].Fields[r.intn(len(f.LEnv[m.node.def].Fields))]
-			k := strings.ToUpper(fl.Key[:1]) + fl.Key[1:]
-			if !declared[k] && k != fl.Key {
+		if r.chance(20) && len(m.node.decl) > 0 {
+			dk := m.node.decl[r.intn(len(m.node.decl))]
+			k := strings.ToUpper(dk[:1]) + dk[1:]
+			if !declared[k] && k != dk {
 				cl3 := root.clone()
 				var cm3 []c20MapRef
 				cl3.mappings("", &cm3)
@@ -396,6 +405,32 @@ func init() {
 					what = "base-nulls" // explicit nulls: only the key verdicts are compared
 				}
 				env.variants(f.Name, what, root, r, out, stats)
+			}
+		}
+		c20WriteStats(out, stats, gens)
+		return nil
+	})
+
+	// documents generated from the PUBLISHED tables alone (no knowledge of the Go structs), the
+	// unknown key injected at every mapping node in turn: works whatever the loader-side
+	// extractor understood
+	register("c20-pubdocs", func(args map[string]string, out *bufio.Writer) error {
+		env, err := c20NewEnv(args)
+		if err != nil {
+			return err
+		}
+		n := argInt(args, "n", 20)
+		depth := argInt(args, "depth", 4)
+		seed := argInt(args, "seed", 1)
+		stats := map[string]int{}
+		gens := map[string]int{}
+		for fi := range env.facts.Files {
+			f := &env.facts.Files[fi]
+			for i := 0; i < n; i++ {
+				r := newRng(uint64(seed)*2000003 + uint64(fi)*104729 + uint64(i))
+				g := &c20Gen{f: f, r: r, maxDepth: depth, kinds: gens}
+				root := g.pgen(c20PTy{K: "ref", Ref: f.PRoot}, 0, "")
+				env.variants(f.Name, "base", root, r, out, stats)
 			}
 		}
 		c20WriteStats(out, stats, gens)
